@@ -14,6 +14,10 @@ TOL = 1e-6
 DTOL = 5e-4     # retraction depths: the encoder rounds inch values to 5 decimals
 
 
+FORMAT_FUNCS = ("formatNumber", "buildCommand", "_addCommands", "generateRetractCommands",
+                "generateRecoverCommands", "stringify", "parameterDict")
+
+
 def run_events(cfg, events, handlers=None):
     """Drive the implementation. Returns (results, handlers). results[i] is
     ('none',)|('ignore',)|('list',[...])|('err',kind)|('at',handled,[...])|('ok',)"""
@@ -119,6 +123,12 @@ def judge(cfg, events, results, props=None):
                       and o not in scripts_enter and o not in scripts_exit]
         if res[0] == "err":
             viol("C09", i, "exception %s on %r" % (res[1], ev))
+            # a failure while a synthesised command is being rendered: the command (and with it the
+            # intended values) never reaches the printer
+            fmt = [f for f in (res[2] if len(res) > 2 else []) if f in FORMAT_FUNCS]
+            if fmt:
+                viol("C07", i, "exception %s in %s while rendering a synthesised command for %r"
+                     % (res[1], fmt[-1], ev))
             break
         if ev[0] == "g" and res[0] == "list":
             if not res[1] or any((not isinstance(c, str)) or c == "" for c in res[1]):
